@@ -30,7 +30,8 @@ package types
 //@ // The validation walks the sub distributors in order and records, per account, whether its last occurrence was as a SOURCE
 //@ // or as a DESTINATION (sources first, then the primary share, then the named shares). occMain: some account of the list
 //@ // (ptrs / o / n, typ: the account-type column) is the main account.
-//@ spec func occMain(ptrs [int]int, typ [int]str, o int, n int) bool = n <= 0 ? false : (occMain(ptrs, typ, o, n - 1) || typ[ptrs[o + n - 1]] == "MAIN")
+//@ // (mainAmong is the same list predicate the block step's contracts use: x/cfedistributor/keeper)
+//@ spec func occMain(ptrs [int]int, typ [int]str, o int, n int) bool = mainAmong(ptrs, typ, o, n)
 //@ // loMain: what the occurrence map holds for "MAIN" after the first n sub distributors ("" = never seen)
 //@ spec func loMain(sArr [int]int, sOff [int]int, sLen [int]int, accRows [int][int]int, accTyp [int]str, pTyp [int]str,
 //@     dArr [int]int, dOff [int]int, dLen [int]int, dsRows [int][int]int, dsTyp [int]str, o int, n int) str =
